@@ -13,11 +13,14 @@ StrRoutes == {"str", "reg", "qty"}
 AttrRoutes == {"us", "top", "ns"}
 \* (measured: TLC evaluates these predicates ~100x faster when the case is a state variable built by a record
 \* constructor one step from the initial state than along a chain i' = i + 1; hence the flat shape)
-NoCase == [pk |-> "init", pi |-> 0, b |-> 0, k |-> 0]
+NoCase == [pk |-> "init", pi |-> 0, b |-> 0, k |-> 0, same |-> TRUE]
 PFail(k, clause, route) == PrintT(ToJson([tag |-> "P-FAIL", k |-> k, clause |-> clause, route |-> route, w |-> Witness(c),
                                           doc |-> Documented(c)]))
 TFail(k, route, m) == PrintT(ToJson([tag |-> "T-FAIL", k |-> k, route |-> route, model |-> m, observed |-> Obs[k].r[route]]))
 
+\* T: the transcription files the string and the canonical name under the same symbol iff SameSym
+\* (SameSym is evaluated once per case, when the case record is built: c.same)
+TSame(k, route, a) == (a.ok /\ Obs[k].r["str"].ok /\ (a.sx /\ a.sh) # c.same) => TFail(k, route, [same |-> c.same])
 CheckStr(k, route) ==
   LET o == Obs[k].r[route]
       m == Resolve(CaseStr(c)) IN
@@ -28,17 +31,31 @@ CheckStr(k, route) ==
     /\ (~C14_NonPrefixable(c, o) => PFail(k, "NonPrefixable", route))
     /\ (~C14_NoDoublePrefix(c, o) => PFail(k, "NoDoublePrefix", route))
     /\ ((route # "str" /\ ~C14_Agree(c, Obs[k].r["str"], o)) => PFail(k, "Agree", route))
+    /\ ((route # "str" /\ ~C14_SameUnit(c, Obs[k].r["str"], o)) => PFail(k, "SameUnit", route))
     /\ (~TOk(m, o) => TFail(k, route, m))
+    /\ ((o.ok /\ Obs[k].r["str"].ok /\ ~(o.sx /\ o.sh)) => TFail(k, route, [same |-> TRUE]))
 CheckAttr(k, route) ==
   LET a == Obs[k].r[route]
       m == ResolveAttr(CaseStr(c)) IN
   a.present =>
     /\ (~C14_AttrDenote(c, a) => PFail(k, "AttrDenote", route))
     /\ (~C14_Agree(c, Obs[k].r["str"], a) => PFail(k, "Agree", route))
+    /\ (~C14_SameUnit(c, Obs[k].r["str"], a) => PFail(k, "SameUnit", route))
     /\ (~TOk(m, a) => TFail(k, route, m))
+    /\ TSame(k, route, a)
+\* the canonical spelling (the key of name_alternatives the string is filed under), used as a unit string
+CheckCan(k) ==
+  LET a == Obs[k].r["can"]
+      m == ResolveAttr(CaseStr(c)) IN
+  a.present =>
+    /\ (~C14_Agree(c, Obs[k].r["str"], a) => PFail(k, "Agree", "can"))
+    /\ (~C14_SameUnit(c, Obs[k].r["str"], a) => PFail(k, "SameUnit", "can"))
+    /\ (~TOk(m, a) => TFail(k, "can", m))
+    /\ TSame(k, "can", a)
 
 TraceInit == c = NoCase
-TraceNext == c = NoCase /\ \E k \in 1..Len(Obs) : c' = [pk |-> Obs[k].pk, pi |-> Obs[k].pi, b |-> Obs[k].b, k |-> k]
+TraceNext == c = NoCase /\ \E k \in 1..Len(Obs) : c' = [pk |-> Obs[k].pk, pi |-> Obs[k].pi, b |-> Obs[k].b, k |-> k, same |-> SameSym(CaseStr(Obs[k]))]
 Check == c # NoCase => /\ \A route \in StrRoutes : CheckStr(c.k, route)
                        /\ \A route \in AttrRoutes : CheckAttr(c.k, route)
+                       /\ CheckCan(c.k)
 =============================================================================
